@@ -257,14 +257,20 @@ def assume(f, st):
         if s.neq and not s.tighten():
             return []
         return [s]
-    if k == "atom":
+    if k in ("atom", "atomx"):
         cur = st.atoms.get(f[1])
         if cur is False:
             return []
-        if cur is True:
+        if cur is True and k == "atom":
             return [st]
         s = st.copy()
         s.atoms[f[1]] = True
+        if k == "atomx":
+            # an atom whose truth implies linear side facts (e.g. s[a:b] == "lit"  =>  len(s) >= len(lit))
+            for con in f[2]:
+                s.add_lin(con)
+            if not feasible(s.lin):
+                return []
         return [s]
     if k == "not":
         g = f[1]
@@ -289,7 +295,7 @@ def assume(f, st):
             for alt in negate((g[1], g[2])):
                 out.extend(assume(("lin", alt[0], alt[1]), st))
             return out
-        if gk == "atom":
+        if gk in ("atom", "atomx"):
             cur = st.atoms.get(g[1])
             if cur is True:
                 return []
@@ -510,6 +516,8 @@ class Engine:
             return Con(v)
         if isinstance(v, int):
             return Num(Lin.const(v))
+        if isinstance(v, (tuple, list)) and name is not None and len(v) > 3 and all(isinstance(x, (str, int)) for x in v):
+            return Ref("folded", v, name)      # a named module-level table: keep its identity
         if isinstance(v, tuple) and len(v) <= 64:
             return Tup([self.wrap(x) for x in v])
         if isinstance(v, list) and len(v) <= 64:
@@ -881,6 +889,8 @@ class Engine:
         cands = []
         for nm in modified:
             v = s.env.get(nm)
+            if isinstance(v, Unk) and self._numeric_term(v.term, s):
+                v = Num(Lin.var(v.term))     # an unknown that the path already used as a number
             if isinstance(v, Num):
                 for k in (0, 1):
                     if s.entails(ge(v.lin, k)):
@@ -1005,7 +1015,44 @@ class Engine:
         return [(s, self.wrap(e.value))]
 
     def e_JoinedStr(self, fr, e, s):
-        return [(s, Unk(self.fresh("fstr")))]
+        exprs = [v.value for v in e.values if isinstance(v, ast.FormattedValue)]
+        out = []
+        for s2, vals in self.eval_seq(fr, exprs, s):
+            parts = []
+            it = iter(vals)
+            ok = True
+            for v in e.values:
+                if isinstance(v, ast.Constant):
+                    if v.value:
+                        parts.append(("lit", str(v.value)))
+                    continue
+                val = next(it)
+                spec = None
+                if v.format_spec is not None:
+                    if len(v.format_spec.values) == 1 and isinstance(v.format_spec.values[0], ast.Constant):
+                        spec = v.format_spec.values[0].value
+                    else:
+                        ok = False
+                if v.conversion not in (-1, 115):
+                    ok = False
+                if not ok:
+                    break
+                if spec:
+                    t = ("fmt", spec, vkey(val))
+                    self.origin[t] = ("fmt", spec, val)
+                    parts.append(("sym", t))
+                elif isinstance(val, Num):
+                    t = ("str", (vkey(val),))
+                    self.origin[t] = ("str", val)
+                    parts.append(("sym", t))
+                else:
+                    p = self._str_parts(val)
+                    if p is None:
+                        ok = False
+                        break
+                    parts.extend(p)
+            out.append((s2, Str(tuple(parts)) if ok else Unk(self.fresh("fstr"))))
+        return out
 
     def e_Name(self, fr, e, s):
         if e.id in s.env:
@@ -1361,6 +1408,14 @@ class Engine:
     def _eq(self, a, b, s):
         if isinstance(a, Con) and isinstance(b, Con):
             return a.value == b.value
+        for x, y in ((a, b), (b, a)):
+            if isinstance(x, Con) and isinstance(x.value, str) and x.value and isinstance(y, Unk):
+                o = self.origin.get(y.term)
+                if o and o[0] == "slice" and isinstance(o[1], Unk):
+                    # base[i:j] == "lit"  implies  len(base) >= len(lit)
+                    ln = Lin.var(("len", vkey(o[1]), 0))
+                    return ("atomx", ("eq", tuple(sorted([repr(vkey(a)), repr(vkey(b))]))),
+                            ((ln - Lin.const(len(x.value)), ">="),))
         if vkey(a) == vkey(b):
             return True
         if isinstance(a, Tup) and isinstance(b, Tup):
@@ -1486,12 +1541,16 @@ class Engine:
             return self.folded_lookup(fr, e, base, idx, None, s)
         if isinstance(base, Ref) and base.kind == "folded" and isinstance(base.target, (tuple, list)):
             tgt = base.target
+            if isinstance(idx, Num) and not idx.lin.is_const():
+                ok = s.entails(ge(idx.lin, 0)) and s.entails(le(idx.lin, len(tgt) - 1))
+                self._check(fr, e, not ok)
             if isinstance(idx, Num) and idx.lin.is_const():
                 k = int(idx.lin.k)
                 if -len(tgt) <= k < len(tgt):
                     return [(s, self.wrap(tgt[k]))]
                 self._raise(fr, e, "IndexError", s)
                 return []
+            self.origin[("item", base.name, vkey(idx))] = ("folded-item", base, idx)
             return [self._ranged(s, ("item", base.name, vkey(idx)), list(tgt))]
         if isinstance(base, Unk) and isinstance(idx, Num):
             # sequence index in bounds?  0 <= idx < len(base)  or  -len(base) <= idx < 0
@@ -1609,7 +1668,7 @@ class Engine:
     # calls -----------------------------------------------------------------
     def _all_any(self, fr, e, s):
         """all(f(x) for x in <known-length tuple>) / any(...): unrolled"""
-        if not (isinstance(e.func, ast.Name) and e.func.id in ("all", "any") and len(e.args) == 1 and not e.keywords
+        if not (isinstance(e.func, ast.Name) and e.func.id in ("all", "any", "sum") and len(e.args) == 1 and not e.keywords
                 and isinstance(e.args[0], (ast.GeneratorExp, ast.ListComp)) and len(e.args[0].generators) == 1
                 and not e.args[0].generators[0].ifs and e.func.id not in s.env):
             return None
@@ -1625,9 +1684,20 @@ class Engine:
                 for s2, fs in accs:
                     for s3 in self.assign(fr, gen.target, item, s2):
                         for s4, v in self.eval(fr, e.args[0].elt, s3):
-                            nxt.append((s4, fs + [self.truth(v)]))
+                            nxt.append((s4, fs + [v if e.func.id == "sum" else self.truth(v)]))
                 accs = nxt
             for s2, fs in accs:
+                if e.func.id == "sum":
+                    tot = Lin.const(0)
+                    okn = True
+                    for v in fs:
+                        nv = self.num(v, s2)
+                        if nv is None:
+                            okn = False
+                            break
+                        tot = tot + nv.lin
+                    results.append((s2, Num(tot) if okn else Unk(self.fresh("sum"))))
+                    continue
                 f = f_and(fs) if e.func.id == "all" else f_or(fs)
                 results.append((s2, Con(f) if isinstance(f, bool) else Bool(f)))
         return results
@@ -2000,12 +2070,27 @@ class Engine:
             if short == "abs":
                 s2.add_lin(ge(Lin.var(t), 0))
             return [(s2, Num(Lin.var(t)))]
+        if short == "divmod" and len(args) == 2:
+            na, nb = self.num(args[0], s), self.num(args[1], s)
+            if na is not None and nb is not None and nb.lin.is_const() and nb.lin.k > 0 and nb.lin.k.denominator == 1:
+                c = int(nb.lin.k)
+                q = ("div", na.lin.key(), c)
+                r = ("mod", na.lin.key(), c)
+                s2 = s.copy()
+                s2.add_lin(eq(na.lin, Lin.var(q).scale(c) + Lin.var(r)))
+                s2.add_lin(ge(Lin.var(r), 0))
+                s2.add_lin(le(Lin.var(r), c - 1))
+                return [(s2, Tup([Num(Lin.var(q)), Num(Lin.var(r))]))]
+            return [(s, Tup([Unk(self.fresh("divq")), Unk(self.fresh("divr"))]))]
         if short == "range":
             if all(isinstance(a, Num) and a.lin.is_const() for a in args) and args:
                 r = range(*[int(a.lin.k) for a in args])
                 if len(r) <= MAX_UNROLL:
                     return [(s, Tup([Num(Lin.const(i)) for i in r]))]
             return [(s, Unk(("range", tuple(vkey(a) for a in args))))]
+        if short in ("enumerate", "reversed", "tuple", "list") and args and isinstance(args[0], Ref) and args[0].kind == "folded" \
+                and isinstance(args[0].target, (tuple, list)) and len(args[0].target) <= MAX_UNROLL:
+            args = [Tup([self.wrap(x) for x in args[0].target])] + list(args[1:])
         if short == "enumerate" and args and isinstance(args[0], Tup):
             return [(s, Tup([Tup([Num(Lin.const(i)), x]) for i, x in enumerate(args[0].items)]))]
         if short == "reversed" and args and isinstance(args[0], Tup):
@@ -2032,7 +2117,12 @@ class Engine:
             s2.epoch += 1
             if len(args) == 1:
                 self._raise(fr, e, "StopIteration", s)
-            return [(s2, Unk(("next", vkey(args[0]) if args else None, next(self.counter))))]
+            out = [(s2, Unk(("next", vkey(args[0]) if args else None, next(self.counter))))]
+            if len(args) == 2:
+                s3 = s.copy()
+                s3.epoch += 1
+                out.append((s3, args[1]))
+            return out
         if short in ("str", "repr"):
             t = ("str", tuple(vkey(a) for a in args))
             if len(args) == 1:
